@@ -530,26 +530,40 @@ func (c cannedTransport) RoundTrip(req *http.Request) (*http.Response, error) {
 
 // c10Client feeds the produced error response to the generated Go client.
 func c10Client(t *tally, cellBase, cell string, svc *Service, m *JobMethod, valid proto.Message, ct string, ex *Exchange, src errSource) {
-	client := svc.NewClient("http://verif.test", &http.Client{Transport: cannedTransport{ex}}, ClientOpts{ContentType: ct})
+	// the content type is chosen once for the client, and once per call over a client whose default is the other one
+	c10ClientMode(t, cellBase, cell, svc, m, valid, ct, ex, src, false)
+	c10ClientMode(t, cellBase, cell, svc, m, valid, ct, ex, src, true)
+}
+
+func c10ClientMode(t *tally, cellBase, cell string, svc *Service, m *JobMethod, valid proto.Message, ct string, ex *Exchange, src errSource, perCall bool) {
+	co, ko, side := ClientOpts{ContentType: ct}, CallOpts{}, ",side=client"
+	if perCall {
+		other := "application/json"
+		if ct == other {
+			other = "application/x-protobuf"
+		}
+		co, ko, side = ClientOpts{ContentType: other}, CallOpts{ContentType: ct}, ",side=client,ctopt=call"
+	}
+	client := svc.NewClient("http://verif.test", &http.Client{Transport: cannedTransport{ex}}, co)
 	var cerr error
 	var got proto.Message
 	var pan any
 	func() {
 		defer func() { pan = recover() }()
-		got, cerr = client.Call(context.Background(), m.Name, valid, CallOpts{})
+		got, cerr = client.Call(context.Background(), m.Name, valid, ko)
 	}()
-	ccell := strings.Replace(cell, "#hook=none", ",side=client#hook=none", 1)
+	ccell := strings.Replace(cell, "#hook=none", side+"#hook=none", 1)
 	switch {
 	case pan != nil:
 		t.viol(ccell, "client_panic", fmt.Sprint(pan), nil)
 	case cerr == nil:
 		t.viol(ccell, "client_error_type", fmt.Sprintf("status %d produced no error (result %v)", ex.Status, got), nil)
-		t.hit(cellBase+",side=client", "client_error_type", true)
+		t.hit(cellBase+side, "client_error_type", true)
 	case src.fields != nil:
 		var ve *sebufhttp.ValidationError
 		if !errors.As(cerr, &ve) {
 			t.viol(ccell, "client_error_type", fmt.Sprintf("400 with violations became %T: %v", cerr, cerr), nil)
-			t.hit(cellBase+",side=client", "client_error_type", true)
+			t.hit(cellBase+side, "client_error_type", true)
 			return
 		}
 		sv := &sebufhttp.ValidationError{}
@@ -560,10 +574,10 @@ func c10Client(t *tally, cellBase, cell string, svc *Service, m *JobMethod, vali
 		}
 		if !proto.Equal(sv, ve) {
 			t.viol(ccell, "client_error_content", fmt.Sprintf("violations differ: server %v client %v", sv, ve), nil)
-			t.hit(cellBase+",side=client", "client_error_content", true)
+			t.hit(cellBase+side, "client_error_content", true)
 			return
 		}
-		t.hit(cellBase+",side=client", "client_validation_error", true)
+		t.hit(cellBase+side, "client_validation_error", true)
 	default:
 		// any other failure: the status and the message or body must be recoverable from the error
 		text := cerr.Error()
@@ -590,10 +604,10 @@ func c10Client(t *tally, cellBase, cell string, svc *Service, m *JobMethod, vali
 		}
 		if !okMsg {
 			t.viol(ccell, "client_error_content", fmt.Sprintf("error %T %q does not carry the server's message/body", cerr, clipS(text)), nil)
-			t.hit(cellBase+",side=client", "client_error_content", true)
+			t.hit(cellBase+side, "client_error_content", true)
 			return
 		}
-		t.hit(cellBase+",side=client", "client_error_carries_message", true)
+		t.hit(cellBase+side, "client_error_carries_message", true)
 	}
 }
 
